@@ -60,19 +60,26 @@ class Lock:
 
 # ------------------------------------------------------------------------------ translator
 def regenerate(modules: list[str] | None = None) -> dict:
-    """Regenerate Gen/*.lean from the current source; fall back to the snapshot on refusal."""
+    """Regenerate Gen/*.lean from the current source.  A generated module whose source the translator refuses falls
+    back to its snapshot and is listed in info["refused"]: theorems that depend on it are then re-checked against the
+    OLD model, so `Check.prove` reports the tie of those properties as broken."""
     import translate
-    info = {"tie": "translator", "changed_vs_snapshot": [], "reason": None}
+    info = {"tie": "translator", "changed_vs_snapshot": [], "reason": None, "refused": {}}
+    snap_files = {p.stem: p.read_text() for p in SNAP.glob("*.lean")}
     try:
-        files = translate.generate(SRC)
-    except translate.Unsupported as ex:
-        info["tie"] = "snapshot"
-        info["reason"] = f"translator refused: {ex}"
-        files = {p.stem: p.read_text() for p in SNAP.glob("*.lean")}
-    except (SyntaxError, OSError) as ex:
+        refused: dict[str, str] = {}
+        files = translate.generate(SRC, refused)
+        for mod, why in refused.items():
+            files[mod] = snap_files[mod]
+        if refused:
+            info["tie"] = "partial-snapshot"
+            info["refused"] = refused
+            info["reason"] = "; ".join(f"{m}: {w}" for m, w in refused.items())
+    except (SyntaxError, OSError, KeyError) as ex:
         info["tie"] = "snapshot"
         info["reason"] = f"source unreadable: {ex}"
-        files = {p.stem: p.read_text() for p in SNAP.glob("*.lean")}
+        info["refused"] = {m: str(ex) for m in snap_files}
+        files = snap_files
     for mod, text in files.items():
         translate.write_if_changed(GEN / f"{mod}.lean", text)
         snap = SNAP / f"{mod}.lean"
@@ -80,6 +87,24 @@ def regenerate(modules: list[str] | None = None) -> dict:
             info["changed_vs_snapshot"].append(mod)
     info["sha"] = {m: hashlib.sha256(t.encode()).hexdigest()[:12] for m, t in files.items()}
     return info
+
+
+def gen_dependencies(prop: str) -> set[str]:
+    """names of the generated modules in the import closure of Props/<prop>.lean"""
+    seen, todo, gens = set(), [f"TeaTasting.Props.{prop}"], set()
+    while todo:
+        mod = todo.pop()
+        if mod in seen:
+            continue
+        seen.add(mod)
+        path = LEAN / (mod.replace(".", "/") + ".lean")
+        if not path.exists():
+            continue
+        for m in re.findall(r"^import (TeaTasting\.\S+)", path.read_text(), flags=re.M):
+            if m.startswith("TeaTasting.Gen."):
+                gens.add(m.split(".")[-1])
+            todo.append(m)
+    return gens
 
 
 def use_snapshot() -> None:
@@ -290,6 +315,12 @@ class Check:
             self.cov["tie"] = self.tie
             for f in failing:
                 self.broken.append(f"theorem {f}")
+            deps = gen_dependencies(self.prop)
+            self.cov["generated_modules_used"] = sorted(deps)
+            for mod, why in sorted(self.tie.get("refused", {}).items()):
+                if mod in deps:
+                    self.broken.append(f"tie: the translator refused the current source of Gen.{mod} ({why}); the theorems "
+                                       f"were re-checked against the snapshot model, not the code")
             if self.tier == "thorough" and ok:
                 rc, lc = run(["lake", "env", "leanchecker", f"TeaTasting.Props.{self.prop}"], timeout=3600)
                 self.cov["leanchecker"] = "ok" if rc == 0 else f"rc={rc}: {lc[-500:]}"
